@@ -44,7 +44,16 @@ def py_canon(d, sy: Names, render: Optional[Callable[[Any], str]]) -> dict:
     return dict(n=len(order), partial=bool(d.allow_partial), syms=sorted(sy(a) for a in d.input_symbols),
                 finals=sorted(order[q] for q in d.final_states if q in order), edges=edges,
                 unreachable=len(set(d.states) - set(order)),
-                names=[render(q) for q in queue] if render else [])
+                names=[_safe(render, q) for q in queue] if render else [])
+
+
+def _safe(render, q) -> str:
+    """Renderers assume the shape of names the current code produces; a name of another
+    shape (after a change to the code) is rendered opaquely instead of crashing the harness."""
+    try:
+        return render(q)
+    except Exception:  # noqa: BLE001
+        return "?" + repr(q).replace(" ", "")
 
 
 def render_set(parts: List[str]) -> str:
@@ -94,5 +103,13 @@ def lang_mismatch(operands, result, alphabet, spec: Callable[..., bool]) -> Opti
     real = langoracle.confirm(list(operands) + [result], w)
     if bool(spec(*real[:k])) != real[k]:
         return w
-    raise InfraError(f"oracle/real-code disagreement on {w!r}: the DFA/NFA readers differ from their "
-                     "definition (C01 should have caught this)")
+    # The word separates the languages *as defined by the transition tables* (textbook semantics,
+    # C01), but the library's own reader does not follow the table on it: the reader is broken as
+    # well.  The property is about languages, so this is still a failing input; say what was seen.
+    global LAST_NOTE
+    LAST_NOTE = (f"on {w!r} the library's accepts_input answers {list(real)} while the transition tables "
+                 f"give a different verdict for at least one of the automata (reader broken too, cf. C01)")
+    return w
+
+
+LAST_NOTE = ""
